@@ -44,6 +44,10 @@ type Opts struct {
 	FreeLimit time.Duration // ModeFree: fake time limit for main
 	Trace     bool          // keep the resolved schedule trace
 	MapSalt   uint64        // 0 = canonical map order
+	// YieldLatPermille > 0: at a yield (no lock held) the goroutine sleeps a drawn fake duration of
+	// 1..YieldLatMaxMs milliseconds with this probability ("any distribution of stage latencies").
+	YieldLatPermille int
+	YieldLatMaxMs    int
 }
 
 // Sim is the state of one run.
@@ -52,9 +56,12 @@ type Sim struct {
 	Opts Opts
 
 	mu       sync.Mutex
+	panicMu  sync.Mutex
+	freeSalt uint64
 	byGoid   map[int64]*G
 	gs       []*G
 	runnable []*G
+	lockWait []*G // goroutines waiting for a contended lock; made runnable by the next Unlock
 	arrive   chan struct{}
 	mainDone bool
 	over     atomic.Bool
@@ -74,7 +81,9 @@ type Sim struct {
 	EndReason   string // "main-returned" | "idle-deadlock" | "step-budget" | "free-timeout"
 	Blocked     string // goroutine dump at deadlock / budget end
 	SimElapsed  time.Duration
+	InjectedLat time.Duration // sum of all fake latencies injected by plans and yields
 	Goroutines  int
+	start       time.Time
 	probes      map[string]int64
 	BubblePanic string
 
@@ -127,7 +136,7 @@ func Me() int {
 // Probe counts a "this rare condition was hit" event.
 func Probe(name string) {
 	s := active.Load()
-	if s == nil {
+	if s == nil || s.Opts.Mode == ModeFree {
 		return
 	}
 	s.mu.Lock()
@@ -138,7 +147,7 @@ func Probe(name string) {
 // ProbeN adds n to a probe counter.
 func ProbeN(name string, n int64) {
 	s := active.Load()
-	if s == nil {
+	if s == nil || s.Opts.Mode == ModeFree {
 		return
 	}
 	s.mu.Lock()
@@ -180,7 +189,25 @@ func Go(site string, f func()) {
 		go f()
 		return
 	}
+	if s.Opts.Mode == ModeFree {
+		// leg B: nothing of simrt may synchronise goroutines with each other (it would hide races)
+		go func() {
+			defer s.recoverFree(site)
+			f()
+		}()
+		return
+	}
 	s.spawn(site, f, false)
+}
+
+func (s *Sim) recoverFree(site string) {
+	if r := recover(); r != nil {
+		buf := make([]byte, 8192)
+		n := runtime.Stack(buf, false)
+		s.panicMu.Lock()
+		s.Panics = append(s.Panics, fmt.Sprintf("panic in goroutine (%s): %v\n%s", site, r, buf[:n]))
+		s.panicMu.Unlock()
+	}
 }
 
 func Go1[A any](site string, f func(A), a A) { Go(site, func() { f(a) }) }
@@ -269,15 +296,19 @@ func Yield(site string) {
 	if s == nil {
 		return
 	}
-	g := s.me()
-	if g == nil || g.exiting {
-		return
-	}
 	if s.Opts.Mode == ModeFree {
-		g.nYield++
-		if (g.nYield*2654435761)>>29 == 0 {
+		// no shared state: the decision is a function of (goroutine, site, run)
+		h := uint64(goid())*0x9e3779b97f4a7c15 ^ s.freeSalt
+		for i := 0; i < len(site); i++ {
+			h = (h ^ uint64(site[i])) * 0x100000001b3
+		}
+		if mix64(h)&7 == 0 {
 			runtime.Gosched()
 		}
+		return
+	}
+	g := s.me()
+	if g == nil || g.exiting {
 		return
 	}
 	if s.over.Load() {
@@ -286,7 +317,47 @@ func Yield(site string) {
 	if g.held > 0 {
 		return
 	}
+	if s.Opts.YieldLatPermille > 0 && s.Tape.F(1000) < s.Opts.YieldLatPermille {
+		d := time.Duration(1+s.Tape.F(s.Opts.YieldLatMaxMs)) * time.Millisecond
+		s.mu.Lock()
+		s.InjectedLat += d
+		s.probes["yield-latency"]++
+		s.mu.Unlock()
+		time.Sleep(d)
+		if s.over.Load() {
+			g.exit()
+		}
+	}
 	s.park(g, site)
+}
+
+// parkLockWait parks g until some lock is released; it is not runnable meanwhile, so a lock
+// holder that sleeps (fake time) does not turn its waiters into a busy loop.
+func (s *Sim) parkLockWait(g *G, site string) {
+	s.mu.Lock()
+	g.site = "lockwait:" + site
+	s.lockWait = append(s.lockWait, g)
+	s.mu.Unlock()
+	<-g.wake
+	if s.over.Load() && !g.exiting {
+		g.exit()
+	}
+}
+
+// Now returns the fake time elapsed since the start of the run.
+func (s *Sim) Now() time.Duration { return time.Since(s.start) }
+
+// AddInjectedLat accounts a latency a world injected itself.
+func (s *Sim) AddInjectedLat(d time.Duration) {
+	if s.Opts.Mode == ModeFree {
+		return
+	}
+	s.mu.Lock()
+	if s.Opts.Trace {
+		s.TraceLog = append(s.TraceLog, fmt.Sprintf("    latency %v at t=%v (sum %v)", d, time.Since(s.start), s.InjectedLat+d))
+	}
+	s.InjectedLat += d
+	s.mu.Unlock()
 }
 
 // Lock replaces X.Lock(): a scheduling point before the acquisition, then a TryLock loop that parks
@@ -297,8 +368,20 @@ func Lock(site string, try func() bool, lock func()) {
 		lock()
 		return
 	}
+	if s.Opts.Mode == ModeFree {
+		// a goroutine blocked in sync.Mutex.Lock is not durably blocked: if the holder sleeps on the
+		// fake clock the bubble would never become idle. Spin on TryLock with a fake-time back-off.
+		d := time.Microsecond
+		for !try() {
+			time.Sleep(d)
+			if d < 2*time.Millisecond {
+				d *= 2
+			}
+		}
+		return
+	}
 	g := s.me()
-	if g == nil || g.exiting || s.Opts.Mode == ModeFree {
+	if g == nil || g.exiting {
 		lock()
 		return
 	}
@@ -310,7 +393,7 @@ func Lock(site string, try func() bool, lock func()) {
 	}
 	for !try() {
 		Probe("lock-contended")
-		s.park(g, "lockwait:"+site)
+		s.parkLockWait(g, site)
 	}
 	g.held++
 }
@@ -319,15 +402,30 @@ func Lock(site string, try func() bool, lock func()) {
 func Unlock(site string, unlock func()) {
 	unlock()
 	s := active.Load()
-	if s == nil {
+	if s == nil || s.Opts.Mode == ModeFree {
 		return
 	}
 	g := s.me()
-	if g == nil || s.Opts.Mode == ModeFree {
+	if g == nil {
 		return
 	}
 	if g.held > 0 {
 		g.held--
+	}
+	s.mu.Lock()
+	moved := len(s.lockWait) > 0
+	if moved {
+		s.runnable = append(s.runnable, s.lockWait...)
+		s.lockWait = nil
+	}
+	s.mu.Unlock()
+	if moved {
+		// the unlocking goroutine may have woken from a fake-time sleep on its own (a holder that
+		// slept under the lock): tell the scheduler that the runnable set changed
+		select {
+		case s.arrive <- struct{}{}:
+		default:
+		}
 	}
 }
 
@@ -378,9 +476,23 @@ func (s *Sim) pick(n int, ids []*G) *G {
 
 func (s *Sim) loop(main func()) {
 	start := time.Now()
+	s.start = start
 	s.arrive = make(chan struct{}, 1)
 	if s.Opts.Mode == ModeFree {
-		s.spawn("main", main, true)
+		s.freeSalt = mix64(s.Tape.Seed)
+		go func() {
+			defer func() {
+				s.recoverFree("main")
+				s.mu.Lock()
+				s.mainDone = true
+				s.mu.Unlock()
+				select {
+				case s.arrive <- struct{}{}:
+				default:
+				}
+			}()
+			main()
+		}()
 		lim := time.NewTimer(s.Opts.FreeLimit)
 		for {
 			s.mu.Lock()
@@ -480,7 +592,9 @@ func (s *Sim) loop(main func()) {
 	s.mu.Lock()
 	s.Goroutines = len(s.gs)
 	parked := append([]*G(nil), s.runnable...)
+	parked = append(parked, s.lockWait...)
 	s.runnable = nil
+	s.lockWait = nil
 	s.mu.Unlock()
 	s.over.Store(true)
 	// release whoever is still parked so that it can unwind
